@@ -27,10 +27,10 @@ theorem readBlock_sound (strict : Bool) (cap flags : Nat) (hdr : BlockHeader) (r
   generalize hC : l2.pos - r.pos = csz at h
   repeat' (split at h)
   all_goals first
-    | (simp only [Prod.mk.injEq, reduceCtorEq, and_false, false_and] at h)
+    | (simp only [Prod.mk.injEq, reduceCtorEq, and_false] at h)
     | skip
   all_goals
-    simp only [Prod.mk.injEq, Option.some.injEq] at h
+    simp only [Option.some.injEq] at h
     obtain ⟨h1, h2, h3⟩ := h
     subst h1 h2 h3
     refine ⟨rfl, ?_, ?_, ?_, ?_⟩
@@ -41,4 +41,666 @@ theorem readBlock_sound (strict : Bool) (cap flags : Nat) (hdr : BlockHeader) (r
     · intro c hc
       simp_all <;> omega
 
+theorem readUvarint_go_ok_pos (b : ByteArray) (pos lim : Nat) :
+    ∀ (fuel i x s v n : Nat), readUvarint.go b pos lim fuel i x s = .ok v n → i + 1 ≤ n := by
+  intro fuel
+  induction fuel with
+  | zero => intro i x s v n h; simp [readUvarint.go] at h
+  | succ f ih =>
+    intro i x s v n h
+    rw [readUvarint.go] at h
+    by_cases h1 : pos + i ≥ lim
+    · rw [if_pos h1] at h; simp at h
+    · rw [if_neg h1] at h
+      simp only at h
+      by_cases h2 : get b (pos + i) < 0x80
+      · rw [if_pos h2] at h
+        split at h
+        · simp at h
+        · simp only [UvRes.ok.injEq] at h; omega
+      · rw [if_neg h2] at h
+        have := ih _ _ _ _ _ h
+        omega
+
+theorem readUvarint_ok_pos (b : ByteArray) (pos lim v n : Nat)
+    (h : readUvarint b pos lim = .ok v n) : 1 ≤ n := by
+  unfold readUvarint at h
+  have := readUvarint_go_ok_pos _ _ _ _ _ _ _ _ _ h
+  omega
+
+theorem recLoop_mono (recs : Array (Nat × Nat)) (inp : ByteArray) :
+    ∀ (n p i p1 : Nat) (st : Status), readTail.recLoop recs inp n p i = some (p1, st) → p ≤ p1 := by
+  intro n
+  induction n with
+  | zero =>
+    intro p i p1 st h
+    rw [readTail.recLoop.eq_1] at h
+    simp only [Option.some.injEq, Prod.mk.injEq] at h
+    omega
+  | succ n ih =>
+    intro p i p1 st h
+    rw [readTail.recLoop.eq_2] at h
+    generalize readUvarint inp p inp.size = u1 at h
+    cases u1 with
+    | eof _ => simp only [Option.some.injEq, Prod.mk.injEq] at h; omega
+    | overflow => simp only [Option.some.injEq, Prod.mk.injEq] at h; omega
+    | ok a ka =>
+      simp only at h
+      split at h
+      · simp only [Option.some.injEq, Prod.mk.injEq] at h; omega
+      · generalize readUvarint inp (p + ka) inp.size = u2 at h
+        cases u2 with
+        | eof _ => simp only [Option.some.injEq, Prod.mk.injEq] at h; omega
+        | overflow => simp only [Option.some.injEq, Prod.mk.injEq] at h; omega
+        | ok b kb =>
+          simp only at h
+          split at h
+          · simp only [Option.some.injEq, Prod.mk.injEq] at h; omega
+          · split at h
+            · simp only [Option.some.injEq, Prod.mk.injEq] at h; omega
+            · have := ih _ _ _ _ h
+              omega
+
+/-- the tail of `readTail` after the index records have been read: padding, index CRC, footer -/
+theorem readTail_sound (flags : Nat) (recs : Array (Nat × Nat)) (r r' : RdState)
+    (h : readTail flags recs r = (r', .eof)) :
+    r'.inp = r.inp ∧ r'.out = r.out ∧ r'.streams = r.streams ∧
+    r.pos + 20 ≤ r'.pos ∧ r'.pos ≤ r.inp.size ∧
+    get r.inp (r'.pos - 3) = flags ∧
+    get r.inp (r'.pos - 4) = 0 ∧
+    sliceEq r.inp (r'.pos - 2) footerMagic = true ∧
+    (Hash.crc32 r.inp (r'.pos - 8) (r'.pos - 2)).toNat = le32At r.inp (r'.pos - 12) ∧
+    (le32At r.inp (r'.pos - 8) + 1) * 4 = r'.pos - 12 - r.pos ∧
+    (Hash.crc32 r.inp r.pos (r'.pos - 16)).toNat = le32At r.inp (r'.pos - 16) ∧
+    (checkSize flags).isSome = true ∧
+    ∃ k p1, readUvarint r.inp (r.pos + 1) r.inp.size = .ok recs.size k ∧
+      readTail.recLoop recs r.inp recs.size (r.pos + 1 + k) 0 = some (p1, .eof) ∧
+      r'.pos - 16 = p1 + padLen (p1 - r.pos) ∧
+      allZero r.inp p1 (r'.pos - 16) = true := by
+  unfold readTail at h
+  simp only at h
+  generalize hu : readUvarint r.inp (r.pos + 1) r.inp.size = u at h
+  cases u with
+  | eof _ => simp only [Prod.mk.injEq, reduceCtorEq, and_false] at h
+  | overflow => simp only [Prod.mk.injEq, reduceCtorEq, and_false] at h
+  | ok cnt k =>
+    simp only at h
+    by_cases hc : cnt ≠ recs.size
+    · rw [if_pos hc] at h
+      simp only [Prod.mk.injEq, reduceCtorEq, and_false] at h
+    · rw [if_neg hc] at h
+      have hc' : cnt = recs.size := by omega
+      subst hc'
+      have hk := readUvarint_ok_pos _ _ _ _ _ hu
+      generalize hl : readTail.recLoop recs r.inp recs.size (r.pos + 1 + k) 0 = lr at h
+      split at h
+      · simp only [Prod.mk.injEq, reduceCtorEq, and_false] at h
+      · simp only [Prod.mk.injEq, reduceCtorEq, and_false] at h
+      · rename_i p1
+        have hm := recLoop_mono _ _ _ _ _ _ _ hl
+        have hp : p1 - (r.pos + 1) + 1 = p1 - r.pos := by omega
+        rw [hp] at h
+        generalize hpc : p1 + padLen (p1 - r.pos) = pc at h
+        by_cases c1 : pc > r.inp.size
+        · rw [if_pos c1] at h; simp only [Prod.mk.injEq, reduceCtorEq, and_false] at h
+        rw [if_neg c1] at h
+        by_cases c2 : (!allZero r.inp p1 pc) = true
+        · rw [if_pos c2] at h; simp only [Prod.mk.injEq, reduceCtorEq, and_false] at h
+        rw [if_neg c2] at h
+        by_cases c3 : pc + 4 > r.inp.size
+        · rw [if_pos c3] at h; simp only [Prod.mk.injEq, reduceCtorEq, and_false] at h
+        rw [if_neg c3] at h
+        by_cases c4 : (Hash.crc32 r.inp r.pos pc).toNat ≠ le32At r.inp pc
+        · rw [if_pos c4] at h; simp only [Prod.mk.injEq, reduceCtorEq, and_false] at h
+        rw [if_neg c4] at h
+        by_cases c5 : pc + 4 + 12 > r.inp.size
+        · rw [if_pos c5] at h; simp only [Prod.mk.injEq, reduceCtorEq, and_false] at h
+        rw [if_neg c5] at h
+        by_cases c6 : (!sliceEq r.inp (pc + 4 + 10) footerMagic) = true
+        · rw [if_pos c6] at h; simp only [Prod.mk.injEq, reduceCtorEq, and_false] at h
+        rw [if_neg c6] at h
+        by_cases c7 : (Hash.crc32 r.inp (pc + 4 + 4) (pc + 4 + 10)).toNat ≠ le32At r.inp (pc + 4)
+        · rw [if_pos c7] at h; simp only [Prod.mk.injEq, reduceCtorEq, and_false] at h
+        rw [if_neg c7] at h
+        by_cases c8 : get r.inp (pc + 4 + 8) ≠ 0
+        · rw [if_pos c8] at h; simp only [Prod.mk.injEq, reduceCtorEq, and_false] at h
+        rw [if_neg c8] at h
+        by_cases c9 : (checkSize (get r.inp (pc + 4 + 9))).isNone = true
+        · rw [if_pos c9] at h; simp only [Prod.mk.injEq, reduceCtorEq, and_false] at h
+        rw [if_neg c9] at h
+        by_cases c10 : get r.inp (pc + 4 + 9) ≠ flags
+        · rw [if_pos c10] at h; simp only [Prod.mk.injEq, reduceCtorEq, and_false] at h
+        rw [if_neg c10] at h
+        by_cases c11 : (le32At r.inp (pc + 4 + 4) + 1) * 4 ≠ pc + 4 - r.pos
+        · rw [if_pos c11] at h; simp only [Prod.mk.injEq, reduceCtorEq, and_false] at h
+        rw [if_neg c11] at h
+        simp only [Prod.mk.injEq, and_true] at h
+        subst h
+        simp only
+        have hpp : p1 ≤ pc := by omega
+        have e3 : pc + 4 + 12 - 3 = pc + 4 + 9 := by omega
+        have e4 : pc + 4 + 12 - 4 = pc + 4 + 8 := by omega
+        have e2 : pc + 4 + 12 - 2 = pc + 4 + 10 := by omega
+        have e8 : pc + 4 + 12 - 8 = pc + 4 + 4 := by omega
+        have e12 : pc + 4 + 12 - 12 = pc + 4 := by omega
+        have e16 : pc + 4 + 12 - 16 = pc := by omega
+        rw [e3, e4, e2, e8, e12, e16]
+        have c10' : get r.inp (pc + 4 + 9) = flags := by simpa using c10
+        refine ⟨trivial, trivial, trivial, ?_, by omega, c10', by simpa using c8, by simpa using c6,
+          by simpa using c7, ?_, by simpa using c4, ?_, k, p1, rfl, hl, hpc.symm, by simpa using c2⟩
+        · omega
+        · omega
+        · rw [← c10']
+          cases hcs : checkSize (get r.inp (pc + 4 + 9)) with
+          | none => simp [hcs] at c9
+          | some _ => rfl
+      · rename_i st hne1 hne2
+        simp only [Prod.mk.injEq] at h
+        obtain ⟨_, h2⟩ := h
+        subst h2
+        exact (hne2 rfl).elim
+
+/-- the optional size field of a block header: present iff the flag bit is set, below 2^63 -/
+theorem sizeField_sound (c : Prop) [Decidable c] (inp : ByteArray) (p lim : Nat) (v : Option Nat) (p' : Nat)
+    (h : (if c then
+        match readUvarint inp p lim with
+        | .ok x k => if x ≥ 2 ^ 63 then none else some (some x, p + k)
+        | _ => none
+      else some (none, p)) = some (v, p')) :
+    (c ↔ v.isSome = true) ∧ (∀ x, v = some x → x < 2 ^ 63) ∧ p ≤ p' := by
+  by_cases hc : c
+  · rw [if_pos hc] at h
+    generalize readUvarint inp p lim = u at h
+    cases u with
+    | eof _ => simp only [reduceCtorEq] at h
+    | overflow => simp only [reduceCtorEq] at h
+    | ok x k =>
+      simp only at h
+      split at h
+      · simp only [reduceCtorEq] at h
+      · simp only [Option.some.injEq, Prod.mk.injEq] at h
+        obtain ⟨h1, h2⟩ := h
+        subst h1 h2
+        refine ⟨by simp [hc], ?_, by omega⟩
+        intro y hy
+        simp only [Option.some.injEq] at hy
+        omega
+  · rw [if_neg hc] at h
+    simp only [Option.some.injEq, Prod.mk.injEq] at h
+    obtain ⟨h1, h2⟩ := h
+    subst h1 h2
+    refine ⟨by simp [hc], ?_, by omega⟩
+    intro y hy
+    simp only [reduceCtorEq] at hy
+
+theorem readBlockHeader_ok_sound (strict : Bool) (inp : ByteArray) (pos : Nat) (hd : BlockHeader)
+    (h : readBlockHeader strict inp pos = .ok hd) :
+    pos + hd.len ≤ inp.size ∧ hd.len = (get inp pos + 1) * 4 ∧ get inp pos ≠ 0 ∧
+    (Hash.crc32 inp pos (pos + hd.len - 4)).toNat = le32At inp (pos + hd.len - 4) ∧
+    get inp (pos + 1) &&& 0x3C = 0 ∧ get inp (pos + 1) &&& 0x03 = 0 ∧ hd.dictCode ≤ 40 ∧
+    (get inp (pos + 1) &&& 0x40 ≠ 0 ↔ hd.csize.isSome = true) ∧
+    (get inp (pos + 1) &&& 0x80 ≠ 0 ↔ hd.usize.isSome = true) ∧
+    (∀ c, hd.csize = some c → c < 2 ^ 63) ∧ (∀ u, hd.usize = some u → u < 2 ^ 63) ∧
+    (strict = true → hd.csize ≠ some 0) := by
+  unfold readBlockHeader at h
+  simp only at h
+  by_cases c1 : pos ≥ inp.size
+  · rw [if_pos c1] at h; simp only [reduceCtorEq] at h
+  rw [if_neg c1] at h
+  by_cases c2 : get inp pos = 0
+  · rw [if_pos c2] at h; simp only [reduceCtorEq] at h
+  rw [if_neg c2] at h
+  by_cases c3 : pos + (get inp pos + 1) * 4 > inp.size
+  · rw [if_pos c3] at h; simp only [reduceCtorEq] at h
+  rw [if_neg c3] at h
+  generalize hn : (get inp pos + 1) * 4 = len at h c3
+  by_cases c4 : (Hash.crc32 inp pos (pos + (len - 4))).toNat ≠ le32At inp (pos + (len - 4))
+  · rw [if_pos c4] at h; simp only [reduceCtorEq] at h
+  rw [if_neg c4] at h
+  by_cases c5 : get inp (pos + 1) &&& 0x3C ≠ 0
+  · rw [if_pos c5] at h; simp only [reduceCtorEq] at h
+  rw [if_neg c5] at h
+  generalize hr1 : (if get inp (pos + 1) &&& 0x40 ≠ 0 then
+        match readUvarint inp (pos + 2) (pos + (len - 4)) with
+        | .ok x k => if x ≥ 2 ^ 63 then none else some (some x, pos + 2 + k)
+        | _ => none
+      else some (none, pos + 2) : Option (Option Nat × Nat)) = r1 at h
+  cases r1 with
+  | none => simp only [reduceCtorEq] at h
+  | some v1 =>
+  obtain ⟨cs, p1⟩ := v1
+  simp only at h
+  have f1 := sizeField_sound _ _ _ _ _ _ hr1
+  generalize hr2 : (if get inp (pos + 1) &&& 0x80 ≠ 0 then
+        match readUvarint inp p1 (pos + (len - 4)) with
+        | .ok x k => if x ≥ 2 ^ 63 then none else some (some x, p1 + k)
+        | _ => none
+      else some (none, p1) : Option (Option Nat × Nat)) = r2 at h
+  cases r2 with
+  | none => simp only [reduceCtorEq] at h
+  | some v2 =>
+  obtain ⟨us, p2⟩ := v2
+  simp only at h
+  have f2 := sizeField_sound _ _ _ _ _ _ hr2
+  by_cases c6 : get inp (pos + 1) &&& 0x03 ≠ 0
+  · rw [if_pos c6] at h; simp only [reduceCtorEq] at h
+  rw [if_neg c6] at h
+  generalize readUvarint inp p2 (pos + (len - 4)) = u3 at h
+  cases u3 with
+  | eof _ => simp only [reduceCtorEq] at h
+  | overflow => simp only [reduceCtorEq] at h
+  | ok id k =>
+  simp only at h
+  by_cases c7 : id ≠ 0x21
+  · rw [if_pos c7] at h; simp only [reduceCtorEq] at h
+  rw [if_neg c7] at h
+  by_cases c8 : p2 + k + 2 > pos + (len - 4)
+  · rw [if_pos c8] at h; simp only [reduceCtorEq] at h
+  rw [if_neg c8] at h
+  by_cases c9 : get inp (p2 + k) ≠ 1
+  · rw [if_pos c9] at h; simp only [reduceCtorEq] at h
+  rw [if_neg c9] at h
+  by_cases c10 : get inp (p2 + k + 1) > 40
+  · rw [if_pos c10] at h; simp only [reduceCtorEq] at h
+  rw [if_neg c10] at h
+  by_cases c11 : (!allZero inp (p2 + k + 2) (pos + (len - 4))) = true
+  · rw [if_pos c11] at h; simp only [reduceCtorEq] at h
+  rw [if_neg c11] at h
+  by_cases c12 : strict = true ∧ cs = some 0
+  · rw [if_pos c12] at h; simp only [reduceCtorEq] at h
+  rw [if_neg c12] at h
+  simp only [HdrRes.ok.injEq] at h
+  subst h
+  simp only
+  have hl : pos + len - 4 = pos + (len - 4) := by omega
+  rw [hl]
+  refine ⟨by omega, trivial, c2, by simpa using c4, by simpa using c5, by simpa using c6, by omega,
+    f1.1, f2.1, f1.2.1, f2.2.1, ?_⟩
+  intro hs hcs
+  exact c12 ⟨hs, hcs⟩
+
+theorem readBlock_inp (strict : Bool) (cap flags : Nat) (hdr : BlockHeader) (r : RdState) :
+    (readBlock strict cap flags hdr r).1.inp = r.inp ∧
+    (readBlock strict cap flags hdr r).1.streams = r.streams := by
+  unfold readBlock
+  simp only
+  generalize Lzma2.decode strict _ r.inp r.pos r.out = dres
+  obtain ⟨l2, dst⟩ := dres
+  simp only
+  repeat' split
+  all_goals exact ⟨rfl, rfl⟩
+
+theorem ite_pair_cases {α β : Type} {c : Prop} [Decidable c] {a : α} {s : β} {x y : α × β}
+    (h : (if c then (a, s) else x) = y) : y.1 = a ∨ x = y := by
+  by_cases hc : c
+  · rw [if_pos hc] at h; subst h; exact Or.inl rfl
+  · rw [if_neg hc] at h; exact Or.inr h
+
+theorem readTail_inp_aux (flags : Nat) (recs : Array (Nat × Nat)) (r r' : RdState) (st : Status)
+    (h : readTail flags recs r = (r', st)) :
+    r'.inp = r.inp ∧ r'.streams = r.streams ∧ r'.out = r.out := by
+  unfold readTail at h
+  simp only at h
+  generalize readUvarint r.inp (r.pos + 1) r.inp.size = u at h
+  cases u with
+  | eof _ => simp only [Prod.mk.injEq] at h; obtain ⟨h1, _⟩ := h; subst h1; exact ⟨rfl, rfl, rfl⟩
+  | overflow => simp only [Prod.mk.injEq] at h; obtain ⟨h1, _⟩ := h; subst h1; exact ⟨rfl, rfl, rfl⟩
+  | ok cnt k =>
+    simp only at h
+    generalize readTail.recLoop recs r.inp cnt (r.pos + 1 + k) 0 = lr at h
+    by_cases hc : cnt ≠ recs.size
+    · rw [if_pos hc] at h
+      have h1 := congrArg Prod.fst h
+      simp only at h1
+      subst h1
+      exact ⟨rfl, rfl, rfl⟩
+    rw [if_neg hc] at h
+    split at h
+    case h_3 =>
+      iterate 11
+        rcases ite_pair_cases h with h1 | h
+        · simp only at h1; subst h1; exact ⟨rfl, rfl, rfl⟩
+      have h1 := congrArg Prod.fst h
+      simp only at h1
+      subst h1
+      exact ⟨rfl, rfl, rfl⟩
+    all_goals
+      have h1 := congrArg Prod.fst h
+      simp only at h1
+      subst h1
+      exact ⟨rfl, rfl, rfl⟩
+
+theorem readTail_inp (flags : Nat) (recs : Array (Nat × Nat)) (r : RdState) :
+    (readTail flags recs r).1.inp = r.inp ∧ (readTail flags recs r).1.streams = r.streams :=
+  have h := readTail_inp_aux flags recs r (readTail flags recs r).1 (readTail flags recs r).2 rfl
+  ⟨h.1, h.2.1⟩
+
+theorem readBlocks_inp (strict : Bool) (cap flags : Nat) :
+    ∀ (fuel : Nat) (r : RdState) (bs : Array Block) (recs : Array (Nat × Nat)),
+      (readBlocks strict cap flags fuel r bs recs).1.inp = r.inp ∧
+      (readBlocks strict cap flags fuel r bs recs).1.streams = r.streams := by
+  intro fuel
+  induction fuel with
+  | zero => intro r bs recs; exact ⟨rfl, rfl⟩
+  | succ f ih =>
+    intro r bs recs
+    rw [readBlocks]
+    generalize readBlockHeader strict r.inp r.pos = hr
+    cases hr with
+    | fail st => exact ⟨rfl, rfl⟩
+    | index =>
+      simp only
+      exact readTail_inp flags recs r
+    | ok hdr =>
+      simp only
+      have hb := readBlock_inp strict cap flags hdr { r with pos := r.pos + hdr.len }
+      generalize readBlock strict cap flags hdr { r with pos := r.pos + hdr.len } = br at hb
+      obtain ⟨r1, st, blk⟩ := br
+      simp only at hb ⊢
+      split
+      · rw [(ih _ _ _).1, (ih _ _ _).2]; exact hb
+      · exact hb
+
+theorem readStreamHeader_fail_ne_eof (inp : ByteArray) (pos : Nat) :
+    readStreamHeader inp pos ≠ .fail .eof := by
+  unfold readStreamHeader
+  repeat' split
+  all_goals simp only [ne_eq, reduceCtorEq, not_false_eq_true, SHdr.fail.injEq]
+
+theorem readStreamHeader_cleanEnd (inp : ByteArray) (pos : Nat)
+    (h : readStreamHeader inp pos = .cleanEnd) : pos ≥ inp.size := by
+  unfold readStreamHeader at h
+  by_cases hp : pos ≥ inp.size
+  · exact hp
+  · rw [if_neg hp] at h
+    repeat' (split at h)
+    all_goals simp only [reduceCtorEq] at h
+
+theorem readStreams_inp (strict : Bool) (cap : Nat) (single : Bool) :
+    ∀ (fuel : Nat) (first : Bool) (r : RdState),
+      (readStreams strict cap single fuel first r).1.inp = r.inp := by
+  intro fuel
+  induction fuel with
+  | zero => intro first r; rfl
+  | succ f ih =>
+    intro first r
+    rw [readStreams]
+    generalize readStreamHeader r.inp r.pos = sh
+    cases sh with
+    | cleanEnd => simp only; split <;> rfl
+    | padding =>
+      simp only
+      split
+      · rfl
+      · rw [ih]
+        split <;> rfl
+    | fail st => rfl
+    | ok flags =>
+      simp only
+      have hb := (readBlocks_inp strict cap flags (r.inp.size - r.pos + 2) { r with pos := r.pos + 12 } #[] #[]).1
+      generalize readBlocks strict cap flags (r.inp.size - r.pos + 2) { r with pos := r.pos + 12 } #[] #[] = br at hb
+      obtain ⟨r1, st, bs⟩ := br
+      simp only at hb ⊢
+      split
+      · exact hb
+      · split
+        · split <;> exact hb
+        · rw [ih]; exact hb
+
+theorem readStreams_clean_consumes_all (strict : Bool) (cap : Nat) (single : Bool) :
+    ∀ (fuel : Nat) (first : Bool) (r r' : RdState),
+      readStreams strict cap single fuel first r = (r', .eof) → r'.pos ≥ r'.inp.size := by
+  intro fuel
+  induction fuel with
+  | zero =>
+    intro first r r' h
+    rw [readStreams] at h
+    simp only [Prod.mk.injEq, reduceCtorEq, and_false] at h
+  | succ f ih =>
+    intro first r r' h
+    rw [readStreams] at h
+    generalize hsh : readStreamHeader r.inp r.pos = sh at h
+    cases sh with
+    | cleanEnd =>
+      simp only at h
+      split at h
+      · simp only [Prod.mk.injEq, reduceCtorEq, and_false] at h
+      · simp only [Prod.mk.injEq, and_true] at h
+        subst h
+        exact readStreamHeader_cleanEnd _ _ hsh
+    | padding =>
+      simp only at h
+      split at h
+      · simp only [Prod.mk.injEq, reduceCtorEq, and_false] at h
+      · exact ih _ _ _ h
+    | fail st =>
+      simp only [Prod.mk.injEq] at h
+      obtain ⟨_, h2⟩ := h
+      subst h2
+      exact absurd hsh (readStreamHeader_fail_ne_eof _ _)
+    | ok flags =>
+      simp only at h
+      generalize readBlocks strict cap flags (r.inp.size - r.pos + 2) { r with pos := r.pos + 12 } #[] #[] = br at h
+      obtain ⟨r1, st, bs⟩ := br
+      simp only at h
+      split at h
+      · simp only [Prod.mk.injEq] at h
+        obtain ⟨_, h2⟩ := h
+        subst h2
+        contradiction
+      · split at h
+        · split at h
+          · simp only [Prod.mk.injEq, reduceCtorEq, and_false] at h
+          · simp only [Prod.mk.injEq, and_true] at h
+            subst h
+            simp only at *
+            omega
+        · exact ih _ _ _ h
+
+theorem readStreams_clean_streams (strict : Bool) (cap : Nat) (single : Bool) :
+    ∀ (fuel : Nat) (first : Bool) (r r' : RdState),
+      readStreams strict cap single fuel first r = (r', .eof) →
+      (first = false → r.streams.size ≥ 1) → r'.streams.size ≥ 1 := by
+  intro fuel
+  induction fuel with
+  | zero =>
+    intro first r r' h
+    rw [readStreams] at h
+    simp only [Prod.mk.injEq, reduceCtorEq, and_false] at h
+  | succ f ih =>
+    intro first r r' h hinv
+    rw [readStreams] at h
+    generalize hsh : readStreamHeader r.inp r.pos = sh at h
+    cases sh with
+    | cleanEnd =>
+      simp only at h
+      split at h
+      · simp only [Prod.mk.injEq, reduceCtorEq, and_false] at h
+      · rename_i hf
+        simp only [Prod.mk.injEq, and_true] at h
+        subst h
+        exact hinv (by simpa using hf)
+    | padding =>
+      simp only at h
+      split at h
+      · simp only [Prod.mk.injEq, reduceCtorEq, and_false] at h
+      · rename_i hf
+        have h0 := hinv (by simpa using hf)
+        refine ih _ _ _ h ?_
+        intro _
+        split
+        · simp only [Array.size_push, Array.size_pop]; omega
+        · exact h0
+    | fail st =>
+      simp only [Prod.mk.injEq] at h
+      obtain ⟨_, h2⟩ := h
+      subst h2
+      exact absurd hsh (readStreamHeader_fail_ne_eof _ _)
+    | ok flags =>
+      simp only at h
+      generalize readBlocks strict cap flags (r.inp.size - r.pos + 2) { r with pos := r.pos + 12 } #[] #[] = br at h
+      obtain ⟨r1, st, bs⟩ := br
+      simp only at h
+      split at h
+      · simp only [Prod.mk.injEq] at h
+        obtain ⟨_, h2⟩ := h
+        subst h2
+        contradiction
+      · split at h
+        · split at h
+          · simp only [Prod.mk.injEq, reduceCtorEq, and_false] at h
+          · simp only [Prod.mk.injEq, and_true] at h
+            subst h
+            simp only [Array.size_push]
+            omega
+        · refine ih _ _ _ h ?_
+          intro _
+          simp only [Array.size_push]
+          omega
+
+theorem clean_needs_stream (strict : Bool) (cap : Nat) (single : Bool) (inp : ByteArray)
+    (h : (read strict cap single inp).status = .eof) :
+    (read strict cap single inp).streams.size ≥ 1 := by
+  unfold read at h ⊢
+  simp only at h ⊢
+  generalize hrs : readStreams strict cap single (inp.size / 4 + 3) true { inp := inp, pos := 0, out := .empty } = rs at h ⊢
+  obtain ⟨r', st⟩ := rs
+  simp only at h ⊢
+  subst h
+  exact readStreams_clean_streams _ _ _ _ _ _ _ hrs (by simp)
+
+theorem readStreamHeader_leading_zeros (inp : ByteArray) (h4 : 4 ≤ inp.size) (hz : allZero inp 0 4 = true) :
+    readStreamHeader inp 0 = .padding := by
+  unfold readStreamHeader
+  rw [if_neg (by omega), if_neg (by omega)]
+  simp only [Nat.zero_add]
+  rw [if_pos hz]
+
+theorem leading_padding_rejected (strict : Bool) (cap : Nat) (single : Bool) (inp : ByteArray)
+    (h4 : 4 ≤ inp.size) (hz : allZero inp 0 4 = true) :
+    (read strict cap single inp).status ≠ .eof := by
+  unfold read
+  have hf : inp.size / 4 + 3 = (inp.size / 4 + 2) + 1 := by omega
+  rw [hf, readStreams]
+  simp only
+  rw [readStreamHeader_leading_zeros inp h4 hz]
+  simp
+
+theorem empty_rejected (strict : Bool) (cap : Nat) (single : Bool) :
+    (read strict cap single ByteArray.empty).status ≠ .eof := by
+  unfold read
+  have hf : ByteArray.empty.size / 4 + 3 = (ByteArray.empty.size / 4 + 2) + 1 := by omega
+  rw [hf, readStreams]
+  have : readStreamHeader ByteArray.empty 0 = .cleanEnd := by
+    unfold readStreamHeader
+    rw [if_pos (by simp)]
+  simp only
+  rw [this]
+  simp
+
+
+/-- `read` reports a clean end only after the whole input has been consumed -/
+theorem read_clean_consumes_all (strict : Bool) (cap : Nat) (single : Bool) (inp : ByteArray)
+    (h : (read strict cap single inp).status = .eof) :
+    (read strict cap single inp).pos ≥ inp.size := by
+  unfold read at h ⊢
+  simp only at h ⊢
+  have hi := readStreams_inp strict cap single (inp.size / 4 + 3) true { inp := inp, pos := 0, out := .empty }
+  generalize hrs : readStreams strict cap single (inp.size / 4 + 3) true { inp := inp, pos := 0, out := .empty } = rs at h hi ⊢
+  obtain ⟨r', st⟩ := rs
+  simp only at h hi ⊢
+  subst h
+  have := readStreams_clean_consumes_all _ _ _ _ _ _ _ hrs
+  rw [hi] at this
+  exact this
+
+/-- independent parser of `n` index records starting at `p`: the list of
+    (unpadded size, uncompressed size) pairs and the position behind them -/
+def parseIndexRecs (inp : ByteArray) : Nat → Nat → Option (List (Nat × Nat) × Nat)
+  | 0, p => some ([], p)
+  | n + 1, p =>
+    match readUvarint inp p inp.size with
+    | .ok a ka =>
+      match readUvarint inp (p + ka) inp.size with
+      | .ok b kb =>
+        match parseIndexRecs inp n (p + ka + kb) with
+        | some (l, q) => some ((a, b) :: l, q)
+        | none => none
+      | _ => none
+    | _ => none
+
+theorem recLoop_records (recs : Array (Nat × Nat)) (inp : ByteArray) :
+    ∀ (n p i p1 : Nat), readTail.recLoop recs inp n p i = some (p1, .eof) → i + n ≤ recs.size →
+      parseIndexRecs inp n p = some ((recs.toList.drop i).take n, p1) := by
+  intro n
+  induction n with
+  | zero =>
+    intro p i p1 h _
+    rw [readTail.recLoop.eq_1] at h
+    simp only [Option.some.injEq, Prod.mk.injEq, and_true] at h
+    subst h
+    simp [parseIndexRecs]
+  | succ n ih =>
+    intro p i p1 h hi
+    rw [readTail.recLoop.eq_2] at h
+    rw [parseIndexRecs]
+    generalize readUvarint inp p inp.size = u1 at h ⊢
+    cases u1 with
+    | eof _ => simp only [Option.some.injEq, Prod.mk.injEq, reduceCtorEq, and_false] at h
+    | overflow => simp only [Option.some.injEq, Prod.mk.injEq, reduceCtorEq, and_false] at h
+    | ok a ka =>
+      simp only at h ⊢
+      split at h
+      · simp only [Option.some.injEq, Prod.mk.injEq, reduceCtorEq, and_false] at h
+      · generalize readUvarint inp (p + ka) inp.size = u2 at h ⊢
+        cases u2 with
+        | eof _ => simp only [Option.some.injEq, Prod.mk.injEq, reduceCtorEq, and_false] at h
+        | overflow => simp only [Option.some.injEq, Prod.mk.injEq, reduceCtorEq, and_false] at h
+        | ok b kb =>
+          simp only at h ⊢
+          split at h
+          · simp only [Option.some.injEq, Prod.mk.injEq, reduceCtorEq, and_false] at h
+          · split at h
+            · simp only [Option.some.injEq, Prod.mk.injEq, reduceCtorEq, and_false] at h
+            · rename_i hne
+              rw [ih _ _ _ h (by omega)]
+              have hlt : i < recs.size := by omega
+              have hg : recs.getD i (0, 0) = (a, b) := by simpa using hne
+              have hg' : recs[i] = (a, b) := by
+                rw [← hg]; simp [Array.getD, hlt]
+              have hd : recs.toList.drop i = recs[i] :: recs.toList.drop (i + 1) := by
+                rw [List.drop_eq_getElem_cons (by simpa using hlt)]
+                simp
+              simp only [hd, hg', List.take_succ_cons]
+
+/-- the index accepted by `readTail` lists exactly the (unpadded size, uncompressed size) pairs
+    `recs` collected from the blocks read, followed by zero padding up to the index CRC -/
+theorem readTail_index_sound (flags : Nat) (recs : Array (Nat × Nat)) (r r' : RdState)
+    (h : readTail flags recs r = (r', .eof)) :
+    ∃ k p1, readUvarint r.inp (r.pos + 1) r.inp.size = .ok recs.size k ∧
+      parseIndexRecs r.inp recs.size (r.pos + 1 + k) = some (recs.toList, p1) ∧
+      r'.pos - 16 = p1 + padLen (p1 - r.pos) ∧
+      allZero r.inp p1 (r'.pos - 16) = true := by
+  obtain ⟨_, _, _, _, _, _, _, _, _, _, _, _, k, p1, h1, h2, h3, h4⟩ := readTail_sound flags recs r r' h
+  refine ⟨k, p1, h1, ?_, h3, h4⟩
+  have := recLoop_records recs r.inp _ _ _ _ h2 (by omega)
+  have ht : List.take recs.size recs.toList = recs.toList :=
+    List.take_of_length_le (by simp)
+  simpa [ht] using this
+
 end Xz
+
+#print axioms Xz.readBlock_sound
+#print axioms Xz.readTail_sound
+#print axioms Xz.readTail_index_sound
+#print axioms Xz.readBlockHeader_ok_sound
+#print axioms Xz.readBlock_inp
+#print axioms Xz.readTail_inp
+#print axioms Xz.readBlocks_inp
+#print axioms Xz.readStreams_inp
+#print axioms Xz.readStreams_clean_consumes_all
+#print axioms Xz.read_clean_consumes_all
+#print axioms Xz.readStreams_clean_streams
+#print axioms Xz.clean_needs_stream
+#print axioms Xz.leading_padding_rejected
+#print axioms Xz.empty_rejected
